@@ -195,6 +195,14 @@ Section Py.
                      end
     | _ => inl EStuck
     end.
+  (* c[lo:hi] on a list, non-negative constant bounds *)
+  Definition p_slice (c lo hi : pv) : pres :=
+    match c, lo, hi with
+    | VList l, VInt a, VInt b =>
+        if ((a <? 0) || (b <? 0))%Z then inl EStuck
+        else inr (VList (firstn (Z.to_nat b - Z.to_nat a) (skipn (Z.to_nat a) l)))
+    | _, _, _ => inl EStuck
+    end.
   Definition iter_of (o : obj) (c : pv) : exn + list pv :=
     match c with
     | VList l => inr l
@@ -287,6 +295,17 @@ Section Py.
   Definition e_uno (f : obj -> pv -> pres) (a : expr) : expr := fun o en =>
     match a o en with
     | EOk o1 x => match f o1 x with inr v => EOk o1 v | inl e => EEx o1 e end
+    | r => r
+    end.
+  Definition e_slice (a lo hi : expr) : expr := fun o en =>
+    match a o en with
+    | EOk o1 x => match lo o1 en with
+                  | EOk o2 y => match hi o2 en with
+                                | EOk o3 z => match p_slice x y z with inr v => EOk o3 v | inl e => EEx o3 e end
+                                | r => r
+                                end
+                  | r => r
+                  end
     | r => r
     end.
   Definition e_and (a b : expr) : expr := fun o en =>
@@ -471,6 +490,7 @@ Arguments e_un {R} f a o en /.
 Arguments e_bin {R} f a b o en /.
 Arguments e_bino {R} f a b o en /.
 Arguments e_uno {R} f a o en /.
+Arguments e_slice {R} a lo hi o en /.
 Arguments e_and {R} a b o en /.
 Arguments e_or {R} a b o en /.
 Arguments e_list {R} es o en /.
